@@ -341,15 +341,20 @@ func cmdCheck(args []string) {
 		}
 	}
 	// judge violations
-	confirmed, unconfirmed := 0, 0
+	confirmed, unconfirmed, ghostOnly := 0, 0, 0
 	for name, g := range caseGroup {
 		r := replayOut[name]
 		g.replay = r
 		switch {
-		case r == nil:
+		case r == nil && g.first.Kind != "ghost":
 			g.result = "not-replayed"
+		case g.first.Kind == "ghost":
+			g.result = "confirmed" // ghost obligations (pool discipline, allocation sizes) are decided by the engine's monitors alone
+			ghostOnly++
 		case g.first.Kind == "assert" && contains(r.Failures, g.first.ID):
 			g.result = "confirmed"
+		case g.first.Kind == "assert" && r.Panic != "" && r.Panic != "assume":
+			g.result = "confirmed" // the native run of the counterexample panicked inside the real code
 		case g.first.Kind == "panic" && r.Panic != "" && r.Panic != "assume":
 			g.result = "confirmed"
 		case g.first.Kind == "hang" && r.Hang:
@@ -416,6 +421,9 @@ func cmdCheck(args []string) {
 				nViolations++
 				fmt.Printf("VIOLATION property=%s replay=%s\n", *prop, g.dir)
 				fmt.Printf("  obligation=%s class=[%s] kind=%s where=%s %s\n", k.id, k.class, k.kind, g.first.Where, g.first.Msg)
+				if k.kind == "ghost" {
+					fmt.Printf("  (decided on the engine's ghost state - pool ownership / allocation monitor; no native observation exists for it)\n")
+				}
 				mj, _ := json.Marshal(modelToVals(g.first.Model))
 				fmt.Printf("  input=%s params=%s\n", truncate(string(mj), 1500), paramString(g.params))
 				if g.dir != "" {
@@ -475,7 +483,7 @@ func cmdCheck(args []string) {
 	}
 
 	// ---- evidence ----
-	ev := buildEvidence(*prop, *tier, seed, spec, reports, eng, loadS, time.Since(t0).Seconds(), witOK, witBad, confirmed, unconfirmed, nViolations, knownHit, inconcl)
+	ev := buildEvidence(*prop, *tier, seed, spec, reports, eng, loadS, time.Since(t0).Seconds(), witOK, witBad, confirmed, unconfirmed, nViolations, knownHit, inconcl, ghostOnly)
 	eb, _ := json.MarshalIndent(ev, "", " ")
 	os.WriteFile(evPath, eb, 0o644)
 
@@ -550,7 +558,7 @@ func writeInconclusiveEvidence(path, prop, tier string, seed int64, spec PropSpe
 }
 
 func buildEvidence(prop, tier string, seed int64, spec PropSpec, reports []*runReport, eng *Engine, loadS, wall float64,
-	witOK, witBad, confirmed, unconfirmed, nViolations int, knownHit, inconcl []string) map[string]interface{} {
+	witOK, witBad, confirmed, unconfirmed, nViolations int, knownHit, inconcl []string, ghostOnly int) map[string]interface{} {
 	states, transitions := 0, int64(0)
 	obligations, discharged, conc := 0, 0, 0
 	queries, sat, unsat, unknown, serr := 0, 0, 0, 0, 0
@@ -663,6 +671,7 @@ func buildEvidence(prop, tier string, seed int64, spec PropSpec, reports []*runR
 		"witness_disagreements":              witBad,
 		"counterexamples_confirmed_natively": confirmed,
 		"counterexamples_unconfirmed":        unconfirmed,
+		"counterexamples_ghost_only":         ghostOnly,
 		"known_findings_hit":                 knownHit,
 		"outside_the_claim":                  spec.Outside,
 		"exhaustive":                         false,
